@@ -34,6 +34,7 @@ Seen(f, b) == CASE f = "exact"   -> IF b = "empty" THEN "nothing" ELSE "whole"
                 [] f = "zero"    -> "nothing"
                 [] f = "over"    -> "whole"           \* Content-Length 65536 .. 70000 with that many bytes
                 [] f = "huge"    -> "cutoff"          \* Content-Length 2^40, a few bytes, then silence
+                [] f = "endless" -> "cutoff"          \* no Content-Length and a body that never ends (chunk after chunk)
                 [] f = "badlen"  -> "unframed"        \* Content-Length that is not a number
                 [] f = "reset"   -> "nothing"         \* the connection is closed before any response
                 [] OTHER -> "nothing"
@@ -48,6 +49,7 @@ Admissible(s, f, b) ==
 \* ---- what the code does
 Init == /\ st \in Statuses /\ fr \in Framings /\ bd \in Bodies
         /\ (fr \in {"over"} => bd = "big") /\ (bd = "big" => fr \in {"exact", "over", "chunked", "closedelim"})
+        /\ (fr = "endless" => st = 200 /\ bd = "answer")
         /\ (Retryable(st, fr) => bd = "answer" /\ (fr \in {"badlen", "reset"} => st = 200) /\ (st # 200 => fr = "exact"))
         /\ pc = "send" /\ res = "none" /\ steps = <<>> /\ sent = 0 /\ ctx = "live"
 
@@ -62,7 +64,7 @@ ReadStatus == pc = "status" /\ UNCHANGED sent /\
 Resume == pc = "pause" /\ UNCHANGED sent /\ (IF ctx = "live" THEN Step("resume", "send", "none") ELSE Step("resume", "done", "err"))
 CtxDone == ctx = "live" /\ pc # "done" /\ Retryable(st, fr) /\ ctx' = "done" /\ UNCHANGED <<st, fr, bd, pc, res, steps, sent>>
 ReadLength == pc = "length" /\ UNCHANGED sent /\
-    IF fr \in {"chunked", "closedelim", "over", "huge"} THEN Step("length", "done", "err")    \* no length, or more than 65535: refused before any allocation
+    IF fr \in {"chunked", "closedelim", "over", "huge", "endless"} THEN Step("length", "done", "err")    \* no length, or more than 65535: refused before any allocation
     ELSE Step("length", "body", "none")
 ReadBody == pc = "body" /\ UNCHANGED sent /\
     IF Seen(fr, bd) = "cutoff" THEN Step("body", "done", "err")      \* short read
